@@ -23,9 +23,11 @@ Go facts mirrored:
   subscription with `expireAt > 0 ∧ unix now > expireAt + ⌊ExpiredSubCloseDelay⌋s`: client-side-refresh
   subscription or no SubRefreshHandler → unsubscribe(expired); else the handler's answer: error /
   Expired / a past ExpireAt → unsubscribe(expired), otherwise `expireAt := answer` (0 = never).
-* expire: `closed ∨ exp = 0` → RETURN (no re-arm: the finding C36-1); server-side refresh
+* `disableExpiration` (fix dc7a0abf): `exp := 0; nextExpire := 0; scheduleNextTimer()`.
+* expire: `closed ∨ exp = 0` → RETURN (no re-arm; unreachable with a pending deadline since the fix of
+  C36-1: `exp = 0` now always comes with `nextExpire = 0`); server-side refresh
   (`¬clientSideRefresh ∧ handler`) → handler answer: error → ServerError, Expired → DisconnectExpired,
-  `ExpireAt > 0` → `exp := ExpireAt` (an answer `ExpireAt = 0` leaves `exp` unchanged: finding C36-2);
+  `ExpireAt > 0` → `exp := ExpireAt`, `ExpireAt = 0` → `disableExpiration` (fix of C36-2b);
   then `checkExpired`: `ttl = exp - unix now`; server-side refresh and `ttl > 0` → `nextExpire = now + ttl`,
   reschedule; `ttl > 0` → return; else DisconnectExpired.
 * connect: `exp = credentials.ExpireAt`; on success presence first-tick jitter, `exp > 0` →
@@ -34,14 +36,14 @@ Go facts mirrored:
   with clientSideRefresh.
 * `Client.Refresh` (server API; no status check): Expired → close(DisconnectExpired);
   `ExpireAt > 0`: `ttl > 0` → `exp := ExpireAt; nextExpire = now + ttl s + ClientExpiredCloseDelay`, reschedule;
-  else close(DisconnectExpired); `ExpireAt = 0` → `exp := 0` and NOTHING else (nextExpire stays, no reschedule).
+  else close(DisconnectExpired); `ExpireAt = 0` → `disableExpiration` (fix of C36-1).
 * refresh command: no handler → ErrorNotAvailable; not clientSideRefresh → DisconnectBadRequest; handler
   answer error → error reply (internal), Expired → DisconnectExpired, `ExpireAt > 0`: `ttl > 0` →
-  as `Client.Refresh`; else ErrorExpired reply; `ExpireAt = 0` → reply `expires=false`, state unchanged
-  (finding C36-2).
+  as `Client.Refresh`; else ErrorExpired reply; `ExpireAt = 0` → `disableExpiration`, reply `expires=false`
+  (fix of C36-2a).
 * sub refresh command: not subscribed → ErrorPermissionDenied; no handler → ErrorNotAvailable; subscription
-  not client-side-refresh → DisconnectBadRequest; handler error → error reply; `reply.Expired` is NOT
-  looked at (finding C36-3); `ExpireAt > 0 ∧ ExpireAt < unix now` → ErrorExpired; else `expireAt := ExpireAt`.
+  not client-side-refresh → DisconnectBadRequest; handler error → error reply; `reply.Expired` →
+  DisconnectExpired (fix 0280a82e of C36-3); `ExpireAt > 0 ∧ ExpireAt < unix now` → ErrorExpired; else `expireAt := ExpireAt`.
 * `close`: status closed, timer stopped, transport gets the disconnect code.
 Not modelled: `unusable` connections, server-side subscriptions (DisconnectSubExpired), presence
 manager / position checks on the tick, TimerScheduler offloading (same outcome once settled),
@@ -165,6 +167,9 @@ def popAns : List Ans → Ans × List Ans
   | [] => (.expired, [])
   | a :: as => (a, as)
 
+/-- `disableExpiration` -/
+def disableExpiration (s : St) : St := schedule { s with exp := 0, nextExpire := 0 }
+
 /-- `checkExpired` -/
 def checkExpired (c : Cfg) (s : St) (now : Nat) : St × List Out :=
   if s.status = .closed ∨ s.exp = 0 then (s, [])
@@ -184,7 +189,9 @@ def expire (c : Cfg) (s : St) (now : Nat) : St × List Out :=
     match a with
     | .error => let (s', o) := close s dServerError; (s', .rh a :: o)
     | .expired => let (s', o) := close s dExpired; (s', .rh a :: o)
-    | .zero => let (s', o) := checkExpired c s now; (s', .rh a :: o)
+    | .zero =>
+      -- zero ExpireAt means no expiration (the connection is not closed here)
+      let (s', o) := checkExpired c (disableExpiration s) now; (s', .rh a :: o)
     | .at d =>
       -- `if expireAt > 0 { c.exp = expireAt }`
       let ea := (Int.ofNat (unix c now) + d).toNat
@@ -283,7 +290,7 @@ def step (c : Cfg) (s : St) (now : Nat) : Op → St × List Out
     else match a with
       | .error => (s, [.err eInternal])
       | .expired => close s dExpired
-      | .zero => (s, [.rrefresh false 0])
+      | .zero => (disableExpiration s, [.rrefresh false 0])
       | .at d =>
         if d > 0 then (applyRefresh c s now d, [.rrefresh true d.toNat])
         else (s, [.err eExpired])
@@ -292,7 +299,7 @@ def step (c : Cfg) (s : St) (now : Nat) : Op → St × List Out
     | .expired => close s dExpired
     | .error => (s, [])
     | .zero =>
-      if s.status = .closed then (s, []) else ({ s with exp := 0 }, [.prefresh false 0])
+      if s.status = .closed then (s, []) else (disableExpiration s, [.prefresh false 0])
     | .at d =>
       if d > 0 then
         if s.status = .closed then (s, []) else (applyRefresh c s now d, [.prefresh true d.toNat])
@@ -318,7 +325,7 @@ def step (c : Cfg) (s : St) (now : Nat) : Op → St × List Out
             { s with subs := s.subs.map fun x => if x.ch == ch then { x with expireAt := ea } else x }
           match a with
           | .error => (s, [.err eInternal])
-          | .expired => (set 0, [.rsubrefresh false 0])      -- reply.Expired is ignored
+          | .expired => close s dExpired
           | .zero => (set 0, [.rsubrefresh false 0])
           | .at d =>
             if d < 0 then (s, [.err eExpired])
